@@ -165,7 +165,9 @@ def parse_string_evals(out):
         i = p.find('= "')
         if i < 0:
             continue
-        body = p[i + 3:]
+        body = p[i + 3:].rstrip()
+        if body.endswith("%string"):
+            body = body[:-7]
         if not body.endswith('"'):
             continue
         vals.append(body[:-1].replace('""', '"'))
